@@ -33,7 +33,11 @@ type Mode struct {
 type jobErr struct {
 	j    int
 	wrap error
+	perm bool // Is matches every target
 }
+
+// Is makes a permissive jobErr match every target (errors.Is consults it).
+func (e *jobErr) Is(error) bool { return e.perm }
 
 func (e *jobErr) Error() string {
 	if e.wrap != nil {
@@ -84,6 +88,8 @@ func newJobErrs(jobs []Job) []*jobErr {
 			errs[j].wrap = context.Canceled
 		case 3:
 			errs[j].wrap = nestedGoexitErr()
+		case 4:
+			errs[j].perm = true
 		}
 	}
 	return errs
